@@ -59,7 +59,7 @@ def tensor(data, requires_grad=False, dtype=None, device=None) -> 'Tensor':
     """
     Creates a Tensor from a numpy array
     """
-    data = np.array(data, dtype=default_type__)
+    data = np.array(data, dtype=dtype if dtype is not None else default_type__) # not rounded through the default type first
     return Tensor(data, requires_grad=requires_grad, dtype=dtype, device=device)
 
 def empty(*shape, dtype=None, requires_grad=False, name=None, device=None):
@@ -102,7 +102,7 @@ def arange(*interval, dtype=None, requires_grad=False, name=None, device=None):
     """
     Creates a Tensor filled with values in range
     """
-    return Tensor(np.arange(*interval, dtype=default_type__), dtype=dtype, requires_grad=requires_grad, name=name, device=device)
+    return Tensor(np.arange(*interval, dtype=dtype if dtype is not None else default_type__), dtype=dtype, requires_grad=requires_grad, name=name, device=device)
 
 def rand(*shape, dtype=None, requires_grad=False, name=None, device=None):
     """
@@ -177,7 +177,8 @@ class Tensor:
         if not isinstance(data, np.ndarray):
             # numpy scalars (0-d results of reductions or indexing) keep their dtype;
             # Python numbers and sequences use the default type
-            data_dtype = data.dtype if isinstance(getattr(data, "dtype", None), np.dtype) else default_type__
+            # (unless a dtype is requested: the values are then converted to it directly)
+            data_dtype = data.dtype if isinstance(getattr(data, "dtype", None), np.dtype) else (dtype if dtype is not None else default_type__)
             try:
                 data = np.array(data, dtype=data_dtype)
             except: 
